@@ -167,13 +167,14 @@ def main(run):
         seen.add(key)
         run.report({"kind": "conc-order", "symptom": key}, {"text": orig[cid]["text"], "inject": orig[cid]["inject"], "rule": "r1", "hold": orig[cid]["hold"], "observation": {k: ob[cid].get(k) for k in ("class", "calls", "held", "during")}},
                    "C18: %s — %s" % (what, orig[cid]["text"].replace("\n", " | ")[:300]))
-    for cid, code in mism:
+    for cid, code in [m for m in mism if m[1] != 7]:
         key = ("coq", code)
         if key in seen:
             continue
         seen.add(key)
         run.report({"kind": "lang-case", "symptom": SYMPTOM_L[code]}, {"text": orig[cid]["text"], "inject": orig[cid]["inject"], "rule": "r1", "observation": {k: ob[cid].get(k) for k in ("class", "ret", "cites", "calls", "store")}, "disagreement": LCODES[code]},
                    "C18: %s — %s" % (LCODES[code], orig[cid]["text"].replace("\n", " | ")[:300]))
+    report_reader(run, PID, mism, lambda i: orig[i]["text"])
     if not ok and not run.violations:
         run.report({"kind": "proof", "theorem": PID}, {"theorem": "Props/C18.v", "log": log[-3000:]}, "C18: the Coq development no longer builds and no failing input was found", no_input=True)
     if ok:
